@@ -157,6 +157,7 @@ pub fn run(spec: &RunSpec, ty: &dyn TyObj, want_log: bool) -> RunResult {
     let mut calls_total = 0u64;
     let mut clusters: BTreeMap<(u8, Vec<u8>, Vec<u8>, usize), Cluster> = BTreeMap::new();
     // complete contiguous fibres seen by fibre walks: config -> (value, accepted words, first word, last word, op)
+    let mut pending_r3b: Vec<((u8, Vec<u8>, Vec<u8>, usize), Violation)> = Vec::new();
     let mut walked: BTreeMap<(u8, Vec<u8>, Vec<u8>), Vec<(Vec<u8>, u64, Vec<u8>, Vec<u8>, usize)>> = BTreeMap::new();
     let mut mat = spec.clone();
     let width = ty.bytes();
@@ -489,7 +490,10 @@ pub fn run(spec: &RunSpec, ty: &dyn TyObj, want_log: bool) -> RunResult {
                                         }
                                     }
                                     Ok(_) => {
-                                        viol.push(Violation { class: "accepted_word_value", op: oi, call: ci, detail: format!("{} on [{}, {}]: word {} was accepted as draw {} of a call but is rejected when served as the first word — acceptance depends on the history, not on the word", op.kind_name(), hex(low), hex(&high_incl), hex(w), evs.len()) });
+                                        // Only meaningful if this sampler's attempts are single requests; that is
+                                        // corroborated at the end of the run by a call of the same configuration
+                                        // that completed with exactly one request of this size (else: undecided).
+                                        pending_r3b.push(((entry, low.clone(), high_incl.clone(), w.len()), Violation { class: "accepted_word_value", op: oi, call: ci, detail: format!("{} on [{}, {}]: word {} was accepted as draw {} of a call but is rejected when served as the first word — acceptance depends on the history, not on the word", op.kind_name(), hex(low), hex(&high_incl), hex(w), evs.len()) }));
                                     }
                                     Err(_) => {}
                                 }
@@ -551,6 +555,14 @@ pub fn run(spec: &RunSpec, ty: &dyn TyObj, want_log: bool) -> RunResult {
         }
         if maxf as u64 == q && q >= 1 {
             bump(&mut counters, "probe_fibre_at_bound");
+        }
+    }
+
+    for (key, v) in pending_r3b {
+        if clusters.contains_key(&key) {
+            viol.push(v);
+        } else {
+            bump(&mut counters, "r3b_undecided_no_single_request_completion");
         }
     }
 
